@@ -375,9 +375,10 @@ def normal_form(t, concat_is_plus=False):
 def show(t):
     if not isinstance(t, tuple):
         return repr(t)
+    if not t or isinstance(t[0], tuple):          # a member list (possibly empty)
+        return "[" + ", ".join(map(show, t)) + "]"
     if t[0] in ("col", "num", "str"):
         return str(t[1]) if t[0] != "str" else repr(t[1])
     if t[0] == "null":
         return "NULL"
-    return "%s(%s)" % (t[0], ", ".join(show(x) if not (isinstance(x, tuple) and x and isinstance(x[0], tuple)) else "[" + ", ".join(map(show, x)) + "]"
-                                        for x in t[1:]))
+    return "%s(%s)" % (t[0], ", ".join(show(x) for x in t[1:]))
